@@ -194,9 +194,12 @@ class SArr:
         if isinstance(idx, tuple):
             if len(idx) == 1:
                 idx = idx[0]
-            elif all(isinstance(x, slice) and x == slice(None)
-                     for x in idx[1:]):
-                idx = idx[0]
+            elif len(idx) - 1 <= len(self.item_shape) and all(
+                    isinstance(x, slice) and x.step in (None, 1) and
+                    x.start in (None, 0) and (x.stop is None or
+                                              x.stop >= dim)
+                    for x, dim in zip(idx[1:], self.item_shape)):
+                idx = idx[0]        # trailing axes taken completely
             else:
                 raise NotModelled("nd index %r" % (idx,))
         if idx is Ellipsis:
